@@ -162,7 +162,8 @@ def _rest(P, R):
     for st, t, v, k in stores(g):
         if isinstance(t, ast.Attribute) and isinstance(t.value, ast.Name) and t.value.id == g.self_name and t.attr in ("variances", "weights") and v is not None:
             sst = gdu.stmt_of(st)
-            if any("'map'" in src(test) or '"map"' in src(test) for test, pol_ in _guards_of(sst) if pol_):
+            from .C05 import _map_side
+            if any(_map_side(test) is not None and _map_side(test) == pol_ for test, pol_ in _guards_of(sst)):
                 continue  # MAP arm: copied from the prior (C05)
             n_vw += 1
             c = cone(gdu, v, sst, interproc=False)
@@ -183,3 +184,4 @@ def _rest(P, R):
 
 
 EXPLANATION += ' Also: (DEP.init-exact) in the k-means arm the initial variances and weights are exactly what the fitted machine derives from the training data; (DTYPE.raw) squares of the samples are taken in floating point (D13).'
+EXPLANATION += ' (IDX.mask-eq generalised by GROUP, as in C06).'
